@@ -209,7 +209,7 @@ def equiv_cases(draw):
     c["group_size"] = 128
     c["grouped_input"] = draw(st.booleans())
     c["layout"] = draw(st.sampled_from(["contig", "contig", "transposed"]))
-    c["via"] = draw(st.sampled_from(["direct", "direct", "detach", "data", "parameter"]))
+    c["via"] = draw(st.sampled_from(["direct", "direct", "detach", "data", "parameter", "clone", "to-copy"]))
     return c
 
 
@@ -231,12 +231,24 @@ def exec_equiv(case):
     via = case.get("via", "direct")
     if via != "direct":
         # the way a frozen module, an optimizer or a serializer reaches the tensor
-        a = cut(alias_of, a, via)
-        if isinstance(a, Raised):
-            return out.fail(f"equiv/via-{via}/raises:{a.type}", a.text)
-        if not isinstance(a, AWQBitsTensor):
-            return out.fail(f"equiv/via-{via}/class", f"{type(a).__name__}")
-        out.klass.append(f"via-{via}")
+        if via in ("clone", "to-copy"):
+            # copies of the optimised tensor (on this CPU-only platform the copy is built in the standard representation): they
+            # denote the same weights
+            b = cut(lambda: a.clone() if via == "clone" else a.to(torch.float16, copy=True))
+            out.klass.append(f"via-{via}")
+            if isinstance(b, Raised):
+                return out.fail(f"equiv/via-{via}/raises:{b.type}", b.text)
+            db = cut(b.dequantize)
+            if isinstance(db, Raised) or tuple(db.shape) != tuple(q.shape) or not torch.equal(db.nan_to_num(), q.dequantize().nan_to_num()):
+                if not isinstance(b, AWQBitsTensor):
+                    out.fail(f"equiv/via-{via}/value", f"the {via} of an optimised tensor does not dequantize like the standard tensor it was built from")
+        else:
+            a = cut(alias_of, a, via)
+            if isinstance(a, Raised):
+                return out.fail(f"equiv/via-{via}/raises:{a.type}", a.text)
+            if not isinstance(a, AWQBitsTensor):
+                return out.fail(f"equiv/via-{via}/class", f"{type(a).__name__}")
+            out.klass.append(f"via-{via}")
     # (1) dequantizes to the same values as the standard representation, up to one float16 rounding per term
     da, dq = cut(a.dequantize), q.dequantize()
     if isinstance(da, Raised):
